@@ -415,7 +415,25 @@ def rfa_kwargs(c):
     return kw
 
 
+def _sampler(kind):
+    """User-supplied sampling functions f(float) -> float for FunctionRFA (legal per its documentation)."""
+    import math
+    if kind == "FunctionConst":          # accepts an array without raising, returns a scalar for it
+        return lambda x, y: (lambda v: float(np.mean(y)))
+    if kind == "FunctionInterp":         # vectorisable
+        return lambda x, y: (lambda v: np.interp(v, x, y))
+    if kind == "FunctionScalar":         # scalar-only (math functions raise on arrays)
+        return lambda x, y: (lambda v: math.sin(float(v)) + float(y[0]))
+    if kind == "FunctionNorm":           # reduction-based: a scalar for array input as well
+        return lambda x, y: (lambda v: float(np.linalg.norm(np.atleast_1d(v) - x[0])) if np.ndim(v) == 0 else np.linalg.norm(v - x[0]))
+    raise KeyError(kind)
+
+
 def rfa_run(c, x, y):
+    if c["strategy"].startswith("Function"):
+        obj = rfa_mod.FunctionRFA(x, y, c["n"], sampling_function_supplier=_sampler(c["strategy"]))
+        xs, ys = obj.rfa()
+        return xs, ys, [], []
     cls = getattr(rfa_mod, RFA_CLASSES[c["strategy"]])
     kw = rfa_kwargs(c)
     obj = cls(x, y, c["n"], **kw)
